@@ -37,6 +37,8 @@ struct Session {
     retrasmit_queue: VecDeque<(usize, Bytes)>,
     // Identifiers of inbound QoS 2 messages answered with PUBREC and not yet released with PUBREL.
     inbound_unreleased: Vec<u16>,
+    // Outbound QoS 2 exchanges answered with PUBREC whose PUBREL has not been submitted yet.
+    outbound_unreleased: u16,
 }
 
 struct Connection {
@@ -106,6 +108,7 @@ where
         session.subscriptions.clear();
         session.retrasmit_queue.clear();
         session.inbound_unreleased.clear();
+        session.outbound_unreleased = 0;
     }
 
     fn validate_packet_size(connection: &Connection, packet: &[u8]) -> Result<(), MqttError> {
@@ -175,6 +178,7 @@ where
                         .retrasmit_queue
                         .push_back((msg.action_id, msg.packet.freeze()));
                 } else if packet_id == PubrelTx::PACKET_ID {
+                    session.outbound_unreleased = session.outbound_unreleased.saturating_sub(1);
                     tx.write(msg.packet.as_ref()).await?;
                     session
                         .awaiting_ack
@@ -326,9 +330,8 @@ where
             RxPacket::Pubrec(pubrec) => {
                 // A PUBREC with a failing reason code ends the exchange (no PUBREL follows),
                 // so it returns the slot taken by the PUBLISH.
-                if pubrec.reason as u8 >= 0x80
-                    && connection.send_quota != connection.remote_receive_maximum
-                {
+                let is_failure = pubrec.reason as u8 >= 0x80;
+                if is_failure && connection.send_quota != connection.remote_receive_maximum {
                     #[cfg(feature = "verif")]
                     crate::verif::probe("failing_pubrec_freed_slot");
                     connection.send_quota += 1;
@@ -339,8 +342,15 @@ where
 
                 // The PUBLISH has been received: it must not be sent again when the session is
                 // resumed (the PUBREL that follows a successful PUBREC is queued on its own).
-                utils::linear_search_by_key(&session.retrasmit_queue, action_id)
-                    .and_then(|pos| session.retrasmit_queue.remove(pos));
+                // Until the caller submits the PUBREL the exchange is in neither queue, yet it
+                // still occupies its send quota slot (also on a resumed connection).
+                if utils::linear_search_by_key(&session.retrasmit_queue, action_id)
+                    .and_then(|pos| session.retrasmit_queue.remove(pos))
+                    .is_some()
+                    && !is_failure
+                {
+                    session.outbound_unreleased = session.outbound_unreleased.saturating_add(1);
+                }
 
                 if let Some((_, sender)) =
                     utils::linear_search_by_key(&session.awaiting_ack, action_id)
@@ -426,6 +436,11 @@ where
             tx.write(packet.as_ref()).await?;
         }
 
+        // So does a QoS 2 exchange whose PUBREL is still to come from the caller.
+        connection.send_quota = connection
+            .send_quota
+            .saturating_sub(session.outbound_unreleased);
+
         Ok(())
     }
 
@@ -467,6 +482,7 @@ where
                     subscriptions: VecDeque::new(),
                     retrasmit_queue: VecDeque::new(),
                     inbound_unreleased: Vec::new(),
+                    outbound_unreleased: 0,
                 },
                 connection: Connection {
                     disconnection_timestamp: None,
